@@ -227,6 +227,9 @@ def run(ck, tier):
     ck.broken += sub.broken
     from .c13 import r6_short_first_read_is_a_fault
     ck.guard(r6_short_first_read_is_a_fault, ck, cx, 'R7')
+    ck.rule('R11', 'the RTU receiver sizes a reply with the class ClientDecoder.lookupPduClass gives for the function-code byte as received: error replies (code | 0x80) are sized as 5-byte exception frames (shared with C03 R3)')
+    from .c03 import r3_lookup_pdu_class
+    ck.guard(r3_lookup_pdu_class, ck, cx, 'R11', ('ClientDecoder',))
     ck.assume('correctness of decoded values is C01/C02; behaviour over all reply contents and histories is not decided')
     return cx.idx
 
